@@ -177,6 +177,9 @@ impl Matcher {
                 self.process_corporate_action(tx)?;
             }
 
+            #[cfg(feature = "verif")]
+            self.verif_day_end(&transactions[i..day_end]);
+
             i = day_end;
         }
 
@@ -366,12 +369,22 @@ impl Matcher {
                                     basis_before.round_dp(2)
                                 )));
                             }
+                            #[cfg(feature = "verif")]
+                            let before: Vec<Decimal> =
+                                ledger.lots().iter().map(|l| l.cost_offset).collect();
                             ledger.apply_cost_adjustment(-net_value);
+                            #[cfg(feature = "verif")]
+                            Self::verif_cost_event(tx, -net_value, &before, ledger);
                         }
                     }
                     Operation::Accumulation { total_value, .. } => {
                         if let Some(ledger) = ledgers.get_mut(&tx.ticker) {
+                            #[cfg(feature = "verif")]
+                            let before: Vec<Decimal> =
+                                ledger.lots().iter().map(|l| l.cost_offset).collect();
                             ledger.apply_cost_adjustment(*total_value);
+                            #[cfg(feature = "verif")]
+                            Self::verif_cost_event(tx, *total_value, &before, ledger);
                         }
                     }
                     _ => {}
@@ -475,6 +488,18 @@ impl Matcher {
             .map(|p| p.quantity)
             .unwrap_or(Decimal::ZERO);
         let total_held = ledger_held + pool_held;
+        #[cfg(feature = "verif")]
+        {
+            let mut e = crate::verif::event("Sell", &tx.ticker, tx.date);
+            e.nums.push(("amount", *amount));
+            e.nums.push(("ledger_held", ledger_held));
+            e.nums.push(("pool_held", pool_held));
+            e.nums.push((
+                "held",
+                self.held.get(&tx.ticker).copied().unwrap_or(Decimal::ZERO),
+            ));
+            crate::verif::emit(e);
+        }
         if *amount > total_held {
             return Err(CgtError::InvalidTransaction(format!(
                 "SELL {} on {}: disposal of {} shares exceeds holding of {} \
@@ -501,6 +526,8 @@ impl Matcher {
         let same_day_matched =
             same_day::match_same_day(self, tx, &mut remaining, all_transactions)?;
         for m in same_day_matched {
+            #[cfg(feature = "verif")]
+            Self::verif_leg(&m);
             self.matches.push(m);
         }
 
@@ -515,6 +542,8 @@ impl Matcher {
             same_day_reservations,
         )?;
         for m in bnb_matched {
+            #[cfg(feature = "verif")]
+            Self::verif_leg(&m);
             self.matches.push(m);
         }
 
@@ -522,6 +551,8 @@ impl Matcher {
         if remaining > Decimal::ZERO {
             let s104_matched = section104::match_section_104(self, tx, &mut remaining, *amount)?;
             if let Some(m) = s104_matched {
+                #[cfg(feature = "verif")]
+                Self::verif_leg(&m);
                 self.matches.push(m);
             }
         }
@@ -604,6 +635,74 @@ impl Matcher {
             | Operation::CapReturn { .. } => {}
         }
         Ok(())
+    }
+
+    #[cfg(feature = "verif")]
+    fn verif_cost_event(
+        tx: &GbpTransaction,
+        adjustment: Decimal,
+        before: &[Decimal],
+        ledger: &AcquisitionLedger,
+    ) {
+        let mut e = crate::verif::event("CostEvent", &tx.ticker, tx.date);
+        e.nums.push(("adjustment", adjustment));
+        for (lot, old) in ledger.lots().iter().zip(before) {
+            e.lots.push((lot.date, lot.cost_offset - *old));
+        }
+        crate::verif::emit(e);
+    }
+
+    #[cfg(feature = "verif")]
+    fn verif_leg(m: &MatchResult) {
+        let mut e = crate::verif::event("Leg", &m.disposal_ticker, m.disposal_date);
+        e.texts
+            .push(("rule", format!("{:?}", m.match_detail.rule)));
+        e.nums.push(("quantity", m.match_detail.quantity));
+        e.nums.push(("cost", m.match_detail.allowable_cost));
+        e.nums.push(("gross", m.gross_proceeds));
+        e.nums.push(("net", m.proceeds));
+        e.other_date = m.match_detail.acquisition_date;
+        crate::verif::emit(e);
+    }
+
+    /// One `Split` event per split/unsplit of the day and one `DayEnd` snapshot per
+    /// security touched that day, after every state change of the day is complete.
+    #[cfg(feature = "verif")]
+    fn verif_day_end(&self, day: &[GbpTransaction]) {
+        let mut seen: Vec<&str> = Vec::new();
+        for tx in day {
+            let factor = match &tx.operation {
+                Operation::Split { ratio } => Some(*ratio),
+                Operation::Unsplit { ratio } if *ratio != Decimal::ZERO => {
+                    Some(Decimal::ONE / *ratio)
+                }
+                _ => None,
+            };
+            if let Some(f) = factor {
+                let mut e = crate::verif::event("Split", &tx.ticker, tx.date);
+                e.nums.push(("factor", f));
+                crate::verif::emit(e);
+            }
+        }
+        for tx in day {
+            if seen.contains(&tx.ticker.as_str()) {
+                continue;
+            }
+            seen.push(&tx.ticker);
+            let mut e = crate::verif::event("DayEnd", &tx.ticker, tx.date);
+            let (q, c) = self
+                .pools
+                .get(&tx.ticker)
+                .map(|p| (p.quantity, p.total_cost))
+                .unwrap_or((Decimal::ZERO, Decimal::ZERO));
+            e.nums.push(("pool_quantity", q));
+            e.nums.push(("pool_cost", c));
+            e.nums.push((
+                "held",
+                self.held.get(&tx.ticker).copied().unwrap_or(Decimal::ZERO),
+            ));
+            crate::verif::emit(e);
+        }
     }
 
     /// Get mutable ledger for a ticker.
